@@ -1,7 +1,8 @@
 import OxiVerif.Lemmas.C01Lexer
 import OxiVerif.Lemmas.C01Graph
-import OxiVerif.Lemmas.C01Xrs
+import OxiVerif.Lemmas.C01Depth
 import OxiVerif.Lemmas.C01A85
+import OxiVerif.Model.C01Old
 /-!
 # C01 — reading any byte sequence never crashes, hangs or exhausts memory
 
@@ -9,31 +10,49 @@ import OxiVerif.Lemmas.C01A85
    input `x` over the full machine range, `(k x).fine = true` (a value or an error — never a panic,
    never a divergence), every self-recursive function reaches a call depth bounded by a constant,
    and no allocation is requested whose size is not bounded by the input length or an explicit cap.
-   This is FALSE of the current code for the kernels listed below; for each of them the exact
-   characterisation `k x = panic ↔ P x` (or the unbounded-depth / divergence / unbounded-allocation
-   family) is proved together with a kernel-checked witness (`C01_witness_…`).  For the other
-   kernels the full statement is proved (`C01_lex_*`, `C01_prev_*`, `C01_flatten_*`,
-   `C01_read_to_end_limited`, `C01_png_rows_*`).
+   For the kernels repaired in /repo (ASCII85 group value, predictor product, lexer and content
+   tokenizer self-calls, object-parser recursion, classic xref section, xref streams, object-stream
+   offsets, stream `/Length`, `/Rotate` composition, page-label numbers) and for those that never had the defect (`C01_prev_*`, `C01_flatten_*`,
+   `C01_read_to_end_limited`, `C01_png_rows_*`) the full statement is proved (`…_never_panics`,
+   `…_fine`, `…_depth_const`, `…_depth_bounded`, `…_alloc_bounded`).  The pre-repair definitions are
+   kept in `Model/C01Old.lean`; the old exact characterisations and witnesses are now statements
+   about them — the regressions the check must catch.
+   It is still FALSE of the current code for the CMap offset fold and an empty RC4 key; for each of
+   them the exact characterisation / a kernel-checked witness (`C01_witness_…`) is proved.
    The whole parser (≈ 25 k lines: recovery, reconstruction, JBIG2/DCT/CCITT, fonts, the
    allocator) is NOT modelled; it is covered by the exploration stream of the harness only. -/
 -/
 namespace OxiVerif.C01
 open Outcome
 
-/-! ## ASCII85 group value (filters.rs:688-692, 728-732) -/
+/-! ## ASCII85 (`decode_ascii85_with_limit`, `ascii85_group_value`) -/
+
+/-- FULL, after the repair (checked fold): the whole decoder — white-space filter, `<~` prefix, `z`,
+groups, `~>`, `u`-padded tail, output limit — never panics, for every byte content, any length, any
+limit -/
+theorem C01_a85_never_panics (data : Bytes) (max : Nat) : (a85Decode data max).isPanic = false :=
+  a85Decode_np data max
+
+example : a85Decode [117, 117, 117, 117, 117, 126, 62] MAX_DECOMPRESSED_SIZE = .err := by decide
+example : a85Decode [115, 56, 87, 45, 34, 126, 62] MAX_DECOMPRESSED_SIZE = .err := by decide
+example : a85Decode [115, 56, 87, 45, 33, 126, 62] MAX_DECOMPRESSED_SIZE = .ok [255, 255, 255, 255] := by decide
+example : (a85Decode [60, 126, 56, 55, 99, 85, 82, 68, 93, 106, 55, 66, 69, 98, 111, 56, 48, 126, 62]
+    MAX_DECOMPRESSED_SIZE).fine = true := by decide
+
+/-! regression: the pre-repair group value (an unchecked positional sum in `u32`) -/
 
 /-- exact characterisation, for a group of ANY length and ANY byte values: the `u32` group
-computation panics iff the base-85 value does not fit `u32` -/
+computation panicked iff the base-85 value does not fit `u32` -/
 theorem C01_a85_group_panic_iff (g : List Nat) :
-    (groupValue g).isPanic = true ↔ 2 ^ 32 ≤ gsum 0 g := by
+    (groupValueOld g).isPanic = true ↔ 2 ^ 32 ≤ gsum 0 g := by
   have := (groupSum_spec g 0 0 (by decide)).1
-  simpa [groupValue, U32] using this
+  simpa [groupValueOld, U32] using this
 
-/-- …and when it fits, the computation returns exactly that value -/
+/-- …and when it fits, the computation returned exactly that value -/
 theorem C01_a85_group_value (g : List Nat) (h : gsum 0 g < 2 ^ 32) :
-    groupValue g = .ok (gsum 0 g) := by
+    groupValueOld g = .ok (gsum 0 g) := by
   have := (groupSum_spec g 0 0 (by decide)).2
-  simpa [groupValue, U32] using this (by simpa [U32] using h)
+  simpa [groupValueOld, U32] using this (by simpa [U32] using h)
 
 /-- the value of a five-character group in the usual notation -/
 def a85Val (c0 c1 c2 c3 c4 : Nat) : Nat :=
@@ -45,35 +64,48 @@ theorem gsum_five (c0 c1 c2 c3 c4 : Nat) : gsum 0 [c0, c1, c2, c3, c4] = a85Val 
 example : 2 ^ 32 ≤ gsum 0 [117, 117, 117, 117, 117] := by decide
 example : gsum 0 [115, 56, 87, 45, 33] = 2 ^ 32 - 1 := by decide
 
-/-- witness: the 7-byte stream `uuuuu~>` panics ("attempt to multiply with overflow") -/
+/-- witness: the 7-byte stream `uuuuu~>` panicked ("attempt to multiply with overflow") -/
 theorem C01_witness_a85 :
-    a85Decode [117, 117, 117, 117, 117, 126, 62] MAX_DECOMPRESSED_SIZE = .panic .mul := by decide
+    a85DecodeOld [117, 117, 117, 117, 117, 126, 62] MAX_DECOMPRESSED_SIZE = .panic .mul := by decide
 
 /-- witness of the second panic site (`Sum`): `s8W-"~>` is 2^32 exactly -/
 theorem C01_witness_a85_add :
-    a85Decode [115, 56, 87, 45, 34, 126, 62] MAX_DECOMPRESSED_SIZE = .panic .add := by decide
+    a85DecodeOld [115, 56, 87, 45, 34, 126, 62] MAX_DECOMPRESSED_SIZE = .panic .add := by decide
 
-/- FULL: ∀ data max, (a85Decode data max).isPanic = false.  FALSE (witnesses above). -/
+/-! ## PNG predictor (`apply_png_predictor_advanced`) -/
 
-/-- partial, whole decoder (`decode_ascii85_with_limit`: white-space filter, `<~` prefix, `z`, groups,
-`~>`, `u`-padded tail, output limit): it never panics on data that contains none of the bytes
-`s`, `t`, `u` — then every group value fits `u32`; any other bytes, any length, any limit -/
-theorem C01_a85_decode_partial (data : Bytes) (max : Nat) (h : ∀ b ∈ data, b < 115 ∨ 117 < b) :
-    (a85Decode data max).isPanic = false :=
-  a85Decode_np data max h
-
-example : (a85Decode [60, 126, 56, 55, 99, 85, 82, 68, 93, 106, 55, 66, 69, 98, 111, 56, 48, 126, 62]
-    MAX_DECOMPRESSED_SIZE).fine = true := by decide
-example : ∀ b ∈ [60, 126, 56, 55, 99, 85, 82, 68, 93, 106, 55, 66, 69, 98, 111, 56, 48, 126, 62],
-    b < 115 ∨ 117 < b := by decide
-
-/-! ## PNG predictor sizing (filters.rs:1830-1868) -/
-
-/-- exact characterisation: `predSizing` panics iff the UNCHECKED product
-`bpc as usize * colors as usize` overflows (line 1848); everything after it is checked. -/
-theorem C01_pred_sizing_panic_iff (columns bpc colors : Int) (len : Nat) :
-    (predSizing columns bpc colors len).isPanic = true ↔ 2 ^ 64 ≤ asU USIZE bpc * asU USIZE colors := by
+/-- after the repair (`bpc.checked_mul(colors)`): every product of the sizing is checked -/
+theorem C01_pred_sizing_never_panics (columns bpc colors : Int) (len : Nat) :
+    (predSizing columns bpc colors len).isPanic = false := by
   unfold predSizing
+  refine not_isPanic_bind _ _ (ckMul_isPanic _ _) (fun prod _ => ?_)
+  refine not_isPanic_bind _ _ (ckMul_isPanic _ _) (fun samples _ => ?_)
+  refine not_isPanic_bind _ _ (ckMul_isPanic _ _) (fun bits _ => ?_)
+  refine not_isPanic_bind _ _ (ckAdd_isPanic _ _) (fun bits7 _ => ?_)
+  refine not_isPanic_bind _ _ (ckAdd_isPanic _ _) (fun rowSize _ => ?_)
+  split <;> rfl
+
+/-- FULL: the WHOLE predictor (sizing, then the row loop with its five filter types, `result[i - bpp]`
+look-backs and previous-row slices) never panics: for every data content, every filter-type byte,
+every /Columns /Colors /BitsPerComponent the indexing and slicing stay inside their buffers -/
+theorem C01_png_predict_never_panics (data : Bytes) (columns bpc colors : Int) :
+    (pngPredict data columns bpc colors).isPanic = false := by
+  unfold pngPredict
+  apply not_isPanic_bind _ _ (C01_pred_sizing_never_panics columns bpc colors data.length)
+  intro s hs
+  exact fine_not_panic _ (predRows_fine data s (predSizing_ok columns bpc colors data.length s hs)
+    (s.numRows + 1) 0 [] (by simp))
+
+example : pngPredict [1, 10, 20, 2, 1, 1] 2 8 1 = .ok [10, 30, 11, 31] := by decide
+example : applyPredictor [0, 1] 12 none none (some (-1)) = .err := by decide
+
+/-! regression: the pre-repair sizing (`(bpc * colors).div_ceil(8)` unchecked, filters.rs:1848) -/
+
+/-- exact characterisation: `predSizingOld` panicked iff the UNCHECKED product
+`bpc as usize * colors as usize` overflows; everything after it was checked. -/
+theorem C01_pred_sizing_panic_iff (columns bpc colors : Int) (len : Nat) :
+    (predSizingOld columns bpc colors len).isPanic = true ↔ 2 ^ 64 ≤ asU USIZE bpc * asU USIZE colors := by
+  unfold predSizingOld
   have hU : USIZE = 2 ^ 64 := rfl
   constructor
   · intro h
@@ -93,45 +125,27 @@ theorem C01_pred_sizing_panic_iff (columns bpc colors : Int) (len : Nat) :
 
 example : 2 ^ 64 ≤ asU USIZE 8 * asU USIZE (-1) := by decide
 
-/-- the WHOLE predictor (`apply_png_predictor_advanced`: sizing, then the row loop with its five
-filter types, `result[i - bpp]` look-backs and previous-row slices) panics iff that one product
-overflows: for every data content, every filter-type byte, every /Columns /Colors /BitsPerComponent
-the indexing and slicing of the row loop stay inside their buffers -/
-theorem C01_png_predict_panic_iff (data : Bytes) (columns bpc colors : Int) :
-    (pngPredict data columns bpc colors).isPanic = true ↔ 2 ^ 64 ≤ asU USIZE bpc * asU USIZE colors := by
-  rw [← C01_pred_sizing_panic_iff columns bpc colors data.length]
-  unfold pngPredict
-  rw [isPanic_bind]
-  constructor
-  · rintro (h | ⟨s, hs, h⟩)
-    · exact h
-    · have hf := predRows_fine data s (predSizing_ok columns bpc colors data.length s hs)
-        (s.numRows + 1) 0 [] (by simp)
-      rw [fine_not_panic _ hf] at h
-      cases h
-  · intro h; exact Or.inl h
-
-/-- partial (the statement that is true of the code once line 1848 uses `checked_mul`): no panic when
-the product fits -/
-theorem C01_png_predict_partial (data : Bytes) (columns bpc colors : Int)
-    (h : asU USIZE bpc * asU USIZE colors < 2 ^ 64) :
-    (pngPredict data columns bpc colors).isPanic = false := by
-  cases hp : (pngPredict data columns bpc colors).isPanic with
-  | false => rfl
-  | true => rw [C01_png_predict_panic_iff] at hp; omega
-
-example : pngPredict [1, 10, 20, 2, 1, 1] 2 8 1 = .ok [10, 30, 11, 31] := by decide
-
 /-- witness: `/Predictor 12 /Colors -1` (defaults elsewhere) on two bytes -/
-theorem C01_witness_pred : applyPredictor [0, 1] 12 none none (some (-1)) = .panic .mul := by decide
+theorem C01_witness_pred : applyPredictorOld [0, 1] 12 none none (some (-1)) = .panic .mul := by decide
 
 /-! ## small arithmetic sites: exact characterisations -/
 
-theorem C01_label_panic_iff (start offset : Nat) :
-    (labelNumber start offset).isPanic = true ↔ 2 ^ 32 ≤ start + offset := by
-  rw [labelNumber, addU_isPanic]; rfl
+/-- page labels after the repair (`saturating_add`): never a panic, and the exact sum whenever it fits -/
+theorem C01_label_never_panics (start offset : Nat) : (labelNumber start offset).isPanic = false := rfl
 
-theorem C01_witness_label : labelNumber 4294967295 1 = .panic .add := by decide
+theorem C01_label_value (start offset : Nat) (h : start + offset < 2 ^ 32) :
+    labelNumber start offset = .ok (start + offset) := by
+  unfold labelNumber U32
+  rw [Nat.min_eq_left (by omega)]
+
+example : labelNumber 4294967295 1 = .ok 4294967295 := by decide
+
+/-- regression (pre-repair `self.start + offset`): panics iff the sum does not fit `u32` -/
+theorem C01_label_panic_iff (start offset : Nat) :
+    (labelNumberOld start offset).isPanic = true ↔ 2 ^ 32 ≤ start + offset := by
+  rw [labelNumberOld, addU_isPanic]; rfl
+
+theorem C01_witness_label : labelNumberOld 4294967295 1 = .panic .add := by decide
 
 theorem C01_rc4_panic_iff (keyLen : Nat) : (rc4FirstIndex keyLen).isPanic = true ↔ keyLen = 0 := by
   unfold rc4FirstIndex remU
@@ -139,10 +153,38 @@ theorem C01_rc4_panic_iff (keyLen : Nat) : (rc4FirstIndex keyLen).isPanic = true
 
 theorem C01_witness_rc4 : rc4FirstIndex 0 = .panic .rem0 := by decide
 
-theorem C01_rotate_panic_iff (rotate angle : Int) :
-    (rotateCompose rotate angle).isPanic = true ↔
-      ¬ (I32MIN ≤ asI U32 rotate + angle ∧ asI U32 rotate + angle ≤ I32MAX) := by
+/-- `/Rotate` composition after the repair (the source rotation is reduced modulo 360 first): for
+every `/Rotate` value and each of the four angles the `i32` addition cannot overflow … -/
+theorem C01_rotate_never_panics (rotate angle : Int) (ha : 0 ≤ angle ∧ angle ≤ 270) :
+    (rotateCompose rotate angle).isPanic = false := by
   unfold rotateCompose addI
+  dsimp only
+  have h0 : 0 ≤ asI U32 rotate % 360 := Int.emod_nonneg _ (by decide)
+  have h1 : asI U32 rotate % 360 < 360 := Int.emod_lt_of_pos _ (by decide)
+  have : I32MIN ≤ asI U32 rotate % 360 + angle ∧ asI U32 rotate % 360 + angle ≤ I32MAX := by
+    unfold I32MIN I32MAX; omega
+  rw [if_pos this]; rfl
+
+/-- … and the result is the same angle as the unreduced sum -/
+theorem C01_rotate_value (rotate angle : Int) (ha : 0 ≤ angle ∧ angle ≤ 270) :
+    rotateCompose rotate angle = .ok ((asI U32 rotate + angle) % 360) := by
+  unfold rotateCompose addI
+  dsimp only
+  have h0 : 0 ≤ asI U32 rotate % 360 := Int.emod_nonneg _ (by decide)
+  have h1 : asI U32 rotate % 360 < 360 := Int.emod_lt_of_pos _ (by decide)
+  have : I32MIN ≤ asI U32 rotate % 360 + angle ∧ asI U32 rotate % 360 + angle ≤ I32MAX := by
+    unfold I32MIN I32MAX; omega
+  rw [if_pos this]
+  show Outcome.ok ((asI U32 rotate % 360 + angle) % 360) = _
+  rw [Int.emod_add_emod]
+
+example : rotateCompose 2147483647 90 = .ok 217 := by decide
+
+/-- regression (pre-repair `rotation + angle` before the reduction) -/
+theorem C01_rotate_panic_iff (rotate angle : Int) :
+    (rotateComposeOld rotate angle).isPanic = true ↔
+      ¬ (I32MIN ≤ asI U32 rotate + angle ∧ asI U32 rotate + angle ≤ I32MAX) := by
+  unfold rotateComposeOld addI
   dsimp only
   by_cases h : I32MIN ≤ asI U32 rotate + angle ∧ asI U32 rotate + angle ≤ I32MAX
   · rw [if_pos h]
@@ -152,17 +194,32 @@ theorem C01_rotate_panic_iff (rotate angle : Int) :
   · rw [if_neg h]
     exact ⟨fun _ => h, fun _ => rfl⟩
 
-theorem C01_witness_rotate : rotateCompose 2147483647 90 = .panic .add := by decide
+theorem C01_witness_rotate : rotateComposeOld 2147483647 90 = .panic .add := by decide
 
-/-- object_stream.rs:95 — the first offset alone decides: `first + offset` in `u32` -/
+/-- object streams after the repair (`first.checked_add(offset)`): no list of offsets panics -/
+theorem C01_objstm_offsets_never_panic (first : Int) : ∀ offs : List Int,
+    (objStmOffsets first offs).isPanic = false
+  | [] => rfl
+  | o :: rest => by
+    rw [objStmOffsets]
+    apply not_isPanic_bind
+    · split <;> rfl
+    · intro a _
+      apply not_isPanic_bind
+      · exact C01_objstm_offsets_never_panic first rest
+      · intro r _; rfl
+
+example : (objStm 1 4294967295 [49, 48, 32, 49, 32, 116, 114, 117, 101]).isPanic = false := by decide
+
+/-- regression (pre-repair object_stream.rs:95) — the first offset alone decides: `first + offset` in `u32` -/
 theorem C01_objstm_first_panic_iff (first o : Int) (rest : List Int) :
     (addU U32 (asU U32 first) (asU U32 o)).isPanic = true →
-      (objStmOffsets first (o :: rest)).isPanic = true := by
+      (objStmOffsetsOld first (o :: rest)).isPanic = true := by
   intro h
-  rw [objStmOffsets, isPanic_bind]; left; exact h
+  rw [objStmOffsetsOld, isPanic_bind]; left; exact h
 
 theorem C01_witness_objstm :
-    (objStm 1 4294967295 [49, 48, 32, 49, 32, 116, 114, 117, 101]).isPanic = true := by decide
+    (objStmOld 1 4294967295 [49, 48, 32, 49, 32, 116, 114, 117, 101]).isPanic = true := by decide
 
 /-- text/cmap.rs:781 — a nine-byte code overflows the `usize` fold -/
 theorem C01_witness_cmap_offset :
@@ -213,125 +270,156 @@ theorem C01_lex_all_terminates (o : LexOpts) (inp : Bytes) :
 example : (lexAll ⟨false, true⟩ 6 [40, 92, 55, 55, 55] [] 0).2.1 = .err := by decide
 example : (lexAll ⟨true, true⟩ 6 [40, 92, 55, 55, 55] [] 0).1 = [.str [255]] := by decide
 
-/- FULL: ∃ K, ∀ bs, (nextToken o bs).depth ≤ K  — the self-call depth is bounded by a constant.
-   FALSE (lexer.rs:150-154, the `;` arm and the two lenient skips call `next_token` again). -/
+/-- FULL, after the repair (the `;` arm and the two lenient skips `continue` a loop): `next_token`
+never calls itself — one activation on every input -/
+theorem C01_lex_depth_const (o : LexOpts) (inp : Bytes) : (nextToken o inp).depth = 1 :=
+  nextToken_depth o inp
 
-/-- partial: the self-call depth is at most linear in the input -/
 theorem C01_lex_depth_partial (o : LexOpts) (inp : Bytes) : (nextToken o inp).depth ≤ inp.length + 1 :=
   (nextToken_good o inp).2.1
 
-theorem nextToken_semi (o : LexOpts) (rest : Bytes) :
-    nextToken o (59 :: rest) =
-      ⟨(nextToken o rest).tok, (nextToken o rest).rest, (nextToken o rest).depth + 1⟩ := by
-  conv => lhs; unfold nextToken
+example : (nextToken ⟨false, false⟩ [59, 59, 59, 59, 49]).tok = .ok (.int 1) := by decide
+
+/-! regression: the pre-repair lexer (`nextTokenOld`, lexer.rs:150-154 calling `next_token` again) -/
+
+theorem nextTokenOld_semi (o : LexOpts) (rest : Bytes) :
+    nextTokenOld o (59 :: rest) =
+      ⟨(nextTokenOld o rest).tok, (nextTokenOld o rest).rest, (nextTokenOld o rest).depth + 1⟩ := by
+  conv => lhs; unfold nextTokenOld
   simp [isWs, isDigit, isAlpha]
 
-/-- pumping lemma: every leading `;` adds one activation -/
-theorem nextToken_semis (o : LexOpts) (n : Nat) (rest : Bytes) :
-    nextToken o (List.replicate n 59 ++ rest) =
-      ⟨(nextToken o rest).tok, (nextToken o rest).rest, (nextToken o rest).depth + n⟩ := by
+/-- pumping lemma: every leading `;` added one activation -/
+theorem nextTokenOld_semis (o : LexOpts) (n : Nat) (rest : Bytes) :
+    nextTokenOld o (List.replicate n 59 ++ rest) =
+      ⟨(nextTokenOld o rest).tok, (nextTokenOld o rest).rest, (nextTokenOld o rest).depth + n⟩ := by
   induction n with
   | zero => simp
   | succ k ih =>
-    rw [List.replicate_succ, List.cons_append, nextToken_semi, ih]
+    rw [List.replicate_succ, List.cons_append, nextTokenOld_semi, ih]
     simp; omega
 
-/-- the depth reached on `n` semicolons is `n + 1` … -/
-theorem C01_lex_depth_semis (o : LexOpts) (n : Nat) : (nextToken o (List.replicate n 59)).depth = n + 1 := by
-  have := nextToken_semis o n []
+/-- the depth reached on `n` semicolons was `n + 1` … -/
+theorem C01_lex_depth_semis (o : LexOpts) (n : Nat) : (nextTokenOld o (List.replicate n 59)).depth = n + 1 := by
+  have := nextTokenOld_semis o n []
   simp only [List.append_nil] at this
   rw [this]
-  simp [nextToken]; omega
+  simp [nextTokenOld]; omega
 
-/-- … hence no constant bounds it: counter-witness to the FULL depth statement -/
-theorem C01_witness_lex_depth_unbounded (o : LexOpts) : ¬ ∃ K, ∀ bs, (nextToken o bs).depth ≤ K := by
+/-- … hence no constant bounded it -/
+theorem C01_witness_lex_depth_unbounded (o : LexOpts) : ¬ ∃ K, ∀ bs, (nextTokenOld o bs).depth ≤ K := by
   intro ⟨K, h⟩
   have := h (List.replicate K 59)
   rw [C01_lex_depth_semis] at this
   omega
 
-/-- the same family in the content-stream tokenizer (content.rs:510): `n` semicolons, `n + 1`
-activations -/
-theorem C01_witness_content_depth (n : Nat) : cSkipDepth (List.replicate n 59) = n + 1 := by
+/-- the content-stream tokenizer after the repair (stray delimiters skipped in a loop): one activation -/
+theorem C01_content_depth_const (bs : Bytes) : cSkipDepth bs = 1 := rfl
+
+/-- regression: the same family in the pre-repair content-stream tokenizer (content.rs:510): `n`
+semicolons, `n + 1` activations -/
+theorem C01_witness_content_depth (n : Nat) : cSkipDepthOld (List.replicate n 59) = n + 1 := by
   induction n with
   | zero => rfl
-  | succ k ih => rw [List.replicate_succ, cSkipDepth]; simp [ih]
+  | succ k ih => rw [List.replicate_succ, cSkipDepthOld]; simp [ih]
 
-/-! ## object parser (`PdfObject::parse_with_options`, objects.rs): recursion without a depth guard -/
+/-! ## object parser (`PdfObject::parse_with_options`, objects.rs): nesting bounded by `MAX_OBJECT_NESTING` -/
 
-/- FULL: ∃ K, ∀ bs, (parseTop o bs).depth ≤ K  — e.g. K = MAX_RECURSION_DEPTH + c as in
-   `stack_safe.rs`.  FALSE: `parse_from_token` → `parse_array` → `parse_from_token` never consults a
-   depth counter. -/
+/-- FULL, after the repair: the recursion depth of the object parser is bounded by a constant, on
+every input (`[`, `<<`, comment chains, any mixture) -/
+theorem C01_obj_depth_bounded (o : LexOpts) (inp : Bytes) :
+    (parseTop o inp).depth ≤ 2 * MAX_OBJECT_NESTING + 2 :=
+  parseTop_depth o inp
 
-theorem nextToken_lbracket (o : LexOpts) (rest : Bytes) :
-    nextToken o (91 :: rest) = ⟨.ok .arrStart, rest, 1⟩ := by
-  conv => lhs; unfold nextToken
+example : (parseTop defaultOpts [91, 91, 49, 93, 93]).depth = 3 := by decide +kernel
+example : (parseTop defaultOpts [91, 91, 49, 93, 93]).val.fine = true := by decide +kernel
+example : (parseTop defaultOpts (List.replicate 300 91)).val.fine = true ∧
+    (parseTop defaultOpts (List.replicate 300 91)).depth = 257 := by decide +kernel
+example : (parseTop strictOpts [37, 10, 37, 10, 37, 10, 49]).depth = 2 := by decide +kernel
+
+/-! regression: the pre-repair parser (`parseTopOld`): `parse_from_token` → `parse_array` →
+`parse_from_token` never consulted a depth counter -/
+
+theorem nextTokenOld_lbracket (o : LexOpts) (rest : Bytes) :
+    nextTokenOld o (91 :: rest) = ⟨.ok .arrStart, rest, 1⟩ := by
+  conv => lhs; unfold nextTokenOld
   simp [isWs]
 
-theorem next_lbracket (o : LexOpts) (rest : Bytes) (ld : Nat) (ss : Bool) :
-    PS.next o ⟨91 :: rest, [], ld, ss⟩ = (.ok .arrStart, ⟨rest, [], max ld 1, ss⟩) := by
-  simp [PS.next, nextToken_lbracket]
+theorem nextOld_lbracket (o : LexOpts) (rest : Bytes) (ld : Nat) (ss : Bool) :
+    PS.nextOld o ⟨91 :: rest, [], ld, ss⟩ = (.ok .arrStart, ⟨rest, [], max ld 1, ss⟩) := by
+  simp [PS.nextOld, nextTokenOld_lbracket]
 
-theorem next_nil (o : LexOpts) (ld : Nat) (ss : Bool) :
-    PS.next o ⟨[], [], ld, ss⟩ = (.ok .eof, ⟨[], [], max ld 1, ss⟩) := by
-  simp [PS.next, nextToken]
+theorem nextOld_nil (o : LexOpts) (ld : Nat) (ss : Bool) :
+    PS.nextOld o ⟨[], [], ld, ss⟩ = (.ok .eof, ⟨[], [], max ld 1, ss⟩) := by
+  simp [PS.nextOld, nextTokenOld]
 
-/-- pumping lemma: after an opening `[`, `n` further `[` nest `n + 2` activations of
-`parse_from_token_with_options` (and the parse ends in an error at EOF) -/
+/-- pumping lemma: after an opening `[`, `n` further `[` nested `n + 2` activations of
+`parse_from_token_with_options` (and the parse ended in an error at EOF) -/
 theorem parse_brackets (o : LexOpts) : ∀ (n fuel ld : Nat) (ss : Bool), 2 * n + 3 ≤ fuel →
-    (parseFromTok o fuel .arrStart ⟨List.replicate n 91, [], ld, ss⟩).val = .err ∧
-    (parseFromTok o fuel .arrStart ⟨List.replicate n 91, [], ld, ss⟩).depth = n + 2
+    (parseFromTokOld o fuel .arrStart ⟨List.replicate n 91, [], ld, ss⟩).val = .err ∧
+    (parseFromTokOld o fuel .arrStart ⟨List.replicate n 91, [], ld, ss⟩).depth = n + 2
   | 0, fuel, ld, ss, h => by
     obtain ⟨f, rfl⟩ : ∃ f, fuel = f + 3 := ⟨fuel - 3, by omega⟩
-    simp [parseFromTok, parseArr, next_nil]
+    simp [parseFromTokOld, parseArrOld, nextOld_nil]
   | n + 1, fuel, ld, ss, h => by
     obtain ⟨f, rfl⟩ : ∃ f, fuel = f + 2 := ⟨fuel - 2, by omega⟩
     have ih := parse_brackets o n f (max ld 1) ss (by omega)
-    rw [parseFromTok]
+    rw [parseFromTokOld]
     simp only [List.replicate_succ]
-    rw [parseArr]
-    simp only [next_lbracket]
+    rw [parseArrOld]
+    simp only [nextOld_lbracket]
     simp [ih.1, ih.2]
 
-/-- `n + 1` opening brackets reach depth `n + 2` … -/
+/-- `n + 1` opening brackets reached depth `n + 2` … -/
 theorem C01_obj_depth_brackets (o : LexOpts) (n : Nat) :
-    (parseTop o (List.replicate (n + 1) 91)).depth = n + 2 := by
-  unfold parseTop
+    (parseTopOld o (List.replicate (n + 1) 91)).depth = n + 2 := by
+  unfold parseTopOld
   simp only [List.replicate_succ, List.length_cons, List.length_replicate]
-  rw [show 3 * (n + 1) + 8 = (3 * n + 10) + 1 by omega, parseObj]
-  simp only [next_lbracket]
+  rw [show 3 * (n + 1) + 8 = (3 * n + 10) + 1 by omega, parseObjOld]
+  simp only [nextOld_lbracket]
   exact (parse_brackets o n (3 * n + 10) _ _ (by omega)).2
 
-/-- … hence no constant bounds the recursion depth of the object parser -/
-theorem C01_witness_obj_depth_unbounded (o : LexOpts) : ¬ ∃ K, ∀ bs, (parseTop o bs).depth ≤ K := by
+/-- … hence no constant bounded the recursion depth of the object parser -/
+theorem C01_witness_obj_depth_unbounded (o : LexOpts) : ¬ ∃ K, ∀ bs, (parseTopOld o bs).depth ≤ K := by
   intro ⟨K, h⟩
   have := h (List.replicate (K + 1) 91)
   rw [C01_obj_depth_brackets] at this
   omega
 
-example : (parseTop defaultOpts [91, 91, 49, 93, 93]).depth = 3 := by decide
+/-! ## classic xref section (xref.rs `parse_traditional_xref_with_options`) -/
 
-/-! ## classic xref section: EOF before `trailer` never leaves the loop (xref.rs:781-790) -/
+/-- FULL, after the repairs (EOF is an error, columns taken with `get`, `checked_add` on the object
+number): on EVERY list of lines the subsection loop ends in a value or an error — it cannot hang (the
+fuel `lines + 1` is never exhausted) and it cannot panic -/
+theorem C01_xref_section_fine (lines : List Bytes) (keys : List Nat) :
+    (sectionLoop (lines.length + 1) lines keys).fine = true :=
+  sectionLoop_fine (lines.length + 1) lines keys (Nat.lt_succ_self _)
 
-/-- at the end of the file the subsection loop reads an empty line, `continue`s and reads again -/
-theorem C01_xref_eof_diverges (fuel : Nat) (keys : List Nat) : sectionLoop fuel [] keys = .diverge := by
+example : classicXref strictOpts [] = .err := by decide
+example : classicXref strictOpts [[48, 32, 49], [48, 48, 48, 48, 48, 48, 48, 48, 48, 48, 32, 54, 53, 53, 51, 53, 32, 102, 32]] = .err := by
+  decide
+example : entryStandard [48, 48, 48, 48, 48, 48, 48, 48, 48, 255, 32, 48, 48, 48, 48, 48, 32, 110] = none := by decide
+example : entryLoop 4294967295 2 [[49, 55, 32, 48, 32, 110], [49, 55, 32, 48, 32, 110]] 0 [] = .err := by decide
+
+/-! regression: the pre-repair section parser -/
+
+/-- at the end of the file the subsection loop read an empty line, `continue`d and read again -/
+theorem C01_xref_eof_diverges (fuel : Nat) (keys : List Nat) : sectionLoopOld fuel [] keys = .diverge := by
   cases fuel <;> rfl
 
-theorem C01_witness_xref_hang : classicXref strictOpts [] = .diverge := by decide
+theorem C01_witness_xref_hang : classicXrefOld strictOpts [] = .diverge := by decide
 
 theorem C01_witness_xref_hang_after_entries :
-    classicXref strictOpts [[48, 32, 49], [48, 48, 48, 48, 48, 48, 48, 48, 48, 48, 32, 54, 53, 53, 51, 53, 32, 102, 32]] = .diverge := by
+    classicXrefOld strictOpts [[48, 32, 49], [48, 48, 48, 48, 48, 48, 48, 48, 48, 48, 32, 54, 53, 53, 51, 53, 32, 102, 32]] = .diverge := by
   decide
 
-/-- `&line[11..16]` on a lossy-decoded line: a non-UTF-8 byte before column 16 shifts the boundaries
-(xref.rs `parse_xref_entry_standard`) -/
+/-- `&line[11..16]` on a lossy-decoded line: a non-UTF-8 byte before column 16 shifts the boundaries -/
 theorem C01_witness_xref_boundary :
-    entryStandard [48, 48, 48, 48, 48, 48, 48, 48, 48, 255, 32, 48, 48, 48, 48, 48, 32, 110] = .panic .boundary := by
+    entryStandardOld [48, 48, 48, 48, 48, 48, 48, 48, 48, 255, 32, 48, 48, 48, 48, 48, 32, 110] = .panic .boundary := by
   decide
 
-/-- `first + i` in `u32` (xref.rs, subsection `4294967295 2`) -/
+/-- `first + i` in `u32` (subsection `4294967295 2`) -/
 theorem C01_witness_xref_add :
-    entryLoop 4294967295 2 [[49, 55, 32, 48, 32, 110], [49, 55, 32, 48, 32, 110]] 0 [] = .panic .add := by
+    entryLoopOld 4294967295 2 [[49, 55, 32, 48, 32, 110], [49, 55, 32, 48, 32, 110]] 0 [] = .panic .add := by
   decide
 
 /-- xref streams: the number of entries produced is bounded by the number of DATA BYTES, whatever
@@ -356,9 +444,18 @@ theorem C01_xrs_entries_bounded (w : List Int) (index : Option (List Int)) (size
 
 example : (xrsEntries [1, 1, 1] (some [0, 4294967295]) none [1, 7, 0, 1, 9, 0]).isPanic = false := by decide
 
-/-- xref stream `/Index [4294967295 2]`: `first_obj + i` in `u32` (xref_stream.rs:183) -/
+/-- FULL, after the repair (checked width sum, checked entry end, `checked_add` on the object
+number): for every `/W`, `/Index`, `/Size` and data the conversion never panics -/
+theorem C01_xrs_never_panics (w : List Int) (index : Option (List Int)) (size : Option Int) (data : Bytes) :
+    (xrsEntries w index size data).isPanic = false :=
+  xrsEntries_np w index size data
+
+example : xrsEntries [1, 1, 1] (some [4294967295, 2]) (some 10) [1, 0, 0, 1, 0, 0] = .err := by decide
+example : xrsEntries [-1, 1, 1] none (some 1) [1, 0, 0] = .err := by decide
+
+/-- regression: xref stream `/Index [4294967295 2]`: `first_obj + i` in `u32` (pre-repair xref_stream.rs:183) -/
 theorem C01_witness_xrs_add :
-    xrsEntries [1, 1, 1] (some [4294967295, 2]) (some 10) [1, 0, 0, 1, 0, 0] = .panic .add := by decide
+    xrsEntriesOld [1, 1, 1] (some [4294967295, 2]) (some 10) [1, 0, 0, 1, 0, 0] = .panic .add := by decide
 
 /-! ## `/Prev` chain: visited set ⇒ termination, one visit per section -/
 
@@ -398,20 +495,45 @@ theorem C01_flatten_step_decreases (maxPages : Nat) (g : List (Nat × PNode)) (s
 example : (flattenRun MAX_PAGES [(0, .pages [0, 1]), (1, .page)] 10 ⟨[0], [], []⟩).map (·.pages) =
     some [1] := by decide
 
-/-! ## stream `/Length`: the allocation request is the declared number, not bounded by the input -/
+/-! ## stream `/Length`: what is allocated before the bytes are known to exist -/
 
-/- FULL: ∃ B, ∀ len avail n, streamAllocRequest len = ok n → n ≤ B avail  (the request is bounded by a
-   function of the bytes present).  FALSE (objects.rs → lexer.rs `read_bytes`: `vec![0u8; n]`). -/
+/-- FULL, after the repair (`Vec::with_capacity(n.min(64 * 1024))`, then `take(n).read_to_end`): the
+up-front request is bounded by a constant whatever `/Length` declares -/
+theorem C01_stream_alloc_bounded (len : Int) (n : Nat) (h : streamAllocRequest len = .ok n) :
+    n ≤ READ_BYTES_RESERVE := by
+  unfold streamAllocRequest at h
+  split at h
+  · cases h
+  · simp only [Outcome.ok.injEq] at h
+    omega
+
+/-- … so reading a stream never aborts in the allocator when it can serve 64 KiB -/
+theorem C01_stream_read_never_aborts (limit : Nat) (len : Int) (avail : Nat) (hl : READ_BYTES_RESERVE < limit) :
+    (streamRead limit len avail).isPanic = false := by
+  unfold streamRead
+  cases h : streamAllocRequest len with
+  | ok req =>
+    have := C01_stream_alloc_bounded len req h
+    simp only [Outcome.bind_ok]
+    rw [if_neg (by omega)]
+    split <;> rfl
+  | err => rfl
+  | panic k => unfold streamAllocRequest at h; split at h <;> cases h
+  | diverge => unfold streamAllocRequest at h; split at h <;> cases h
+
+example : streamRead (2 ^ 30) (2 ^ 40) 4 = .err := by decide
+
+/-! regression: the pre-repair `read_bytes` (`vec![0u8; n]`): the request was the declared number -/
 
 theorem C01_witness_stream_alloc_unbounded :
-    ¬ ∃ B : Nat → Nat, ∀ (len : Int) (avail n : Nat), streamAllocRequest len = .ok n → n ≤ B avail := by
+    ¬ ∃ B : Nat → Nat, ∀ (len : Int) (avail n : Nat), streamAllocRequestOld len = .ok n → n ≤ B avail := by
   intro ⟨B, h⟩
   have := h ((B 0 + 1 : Nat) : Int) 0 (B 0 + 1) (by
-    unfold streamAllocRequest
+    unfold streamAllocRequestOld
     rw [if_neg (by omega)]
     simp)
   omega
 
-theorem C01_witness_stream_alloc : streamRead (2 ^ 30) (2 ^ 40) 4 = .panic .alloc := by decide
+theorem C01_witness_stream_alloc : streamReadOld (2 ^ 30) (2 ^ 40) 4 = .panic .alloc := by decide
 
 end OxiVerif.C01
